@@ -330,6 +330,28 @@ pub fn posthoc(pre: &World, post: &World, res: &mut EvalOut) -> PostHoc {
                 push(&mut v, "C16", "not-treated-as-failed", format!("{} {:?}", j, res.final_states.get(j)));
             }
         }
+        // its not-yet-started dependants end upstream-failed (same exemption as C07: Ephemerals
+        // nobody can need simply stay skipped)
+        if !res.eco.is_empty() && !res.aborted {
+            let mut blocked: BTreeSet<usize> = BTreeSet::new();
+            for &s2 in act.iter() {
+                if res.executed.contains(&post.id(s2)) {
+                    continue;
+                }
+                for (u, _) in post.deps_of(s2) {
+                    if blocked.contains(&u) || res.eco.contains(&post.id(u)) {
+                        blocked.insert(s2);
+                    }
+                }
+            }
+            for b in blocked.iter() {
+                let id = post.id(*b);
+                let stt = res.final_states.get(&id).cloned().unwrap_or_default();
+                if !res.upstream_failed.contains(&id) && !(useless.contains(b) && stt.contains("FinishedSkipped")) {
+                    push(&mut v, "C16", "dependant-of-failed-ephemeral-not-upstream-failed", format!("{} ended {}", id, stt));
+                }
+            }
+        }
     }
 
     // ---------------- C07 (final)
